@@ -297,14 +297,16 @@ func (c *FnCtx) emitLibAxioms() {
 			savePre := c.pre
 			t := c.specEval(st, ax.Expr, map[string]*Term{}, nil)
 			c.pre = savePre
-			if len(st.heap) > 0 {
-				return // axioms must not depend on the heap
+			for hn := range st.heap {
+				if !strings.HasPrefix(hn, "G:") {
+					return // axioms must not depend on the heap (package-level variables are constants: frame:global)
+				}
 			}
 			syms := map[string]bool{}
 			symbolsOf(t.String(), syms)
 			var needs []string
 			for sname := range syms {
-				if strings.HasPrefix(sname, "fn_") || strings.HasPrefix(sname, "sf_") {
+				if strings.HasPrefix(sname, "fn_") || strings.HasPrefix(sname, "sf_") || strings.HasPrefix(sname, "G_") {
 					needs = append(needs, sname)
 				}
 			}
